@@ -268,6 +268,42 @@ def _multi(ctx, POINTS, CENTRES, ALPH, PC, PAL, label):
             ctx.nontrivial(("partial", tuple(sorted(kwargs))), section="multi")
 
 
+def exponent_forms(ctx):
+    """The exponent handed over as a Python int, a NumPy integer or an extreme float: same function as for the float of
+    equal value, and the unnormalised variant is the normalised one times the documented factor (pi/alpha)^(3/2) for s,
+    (3/2) pi^(3/2) / alpha^(5/2) for p -- compared as a RATIO, so the recorded p-type tail finding does not enter.
+    (Added after seeded change C17-G: alpha**5 in the integer's own dtype / beyond the float range.)"""
+    from grid.coulomb import coulomb_gaussian_p, coulomb_gaussian_s
+
+    r = np.array([0.0, 0.3, 1.1, 4.0])
+    forms = [3, np.int64(7), np.int32(100), np.int64(10000), np.int64(13739), np.float32(2.5), 1e-70, 1e-30, 1e40, 1e65]
+    for kind, fn, fac in (("s", coulomb_gaussian_s, lambda a: (mp.pi / a) ** mp.mpf("1.5")),
+                          ("p", coulomb_gaussian_p, lambda a: mp.mpf("1.5") * mp.pi ** mp.mpf("1.5") / a ** mp.mpf("2.5"))):
+        for alpha in forms:
+            ctx.count(section="exponent-forms")
+            case = {"route": "exponent-forms", "kind": kind, "alpha": repr(alpha)}
+            af = float(alpha)
+            rr = r / np.sqrt(af) if af > 1e30 or af < 1e-20 else r       # keep sqrt(alpha) r of order one
+            try:
+                with np.errstate(all="ignore"):
+                    n1 = np.asarray(fn(rr, alpha, normalized=True), dtype=float)
+                    n0 = np.asarray(fn(rr, af, normalized=True), dtype=float)
+                    u1 = np.asarray(fn(rr, alpha, normalized=False), dtype=float)
+            except Exception as exc:
+                ctx.violation(f"exponent-forms:{kind}:raised:{type(exc).__name__}", f"coulomb_gaussian_{kind}(r, alpha={alpha!r}) raised "
+                              f"{type(exc).__name__}: {exc}", case)
+                continue
+            ctx.nontrivial(("expform", kind, repr(alpha)), section="exponent-forms")
+            want = float(fac(mp.mpf(af)))
+            if not np.allclose(n1, n0, rtol=1e-6 if isinstance(alpha, np.float32) else 1e-13, atol=0, equal_nan=False):
+                ctx.violation(f"exponent-forms:{kind}:differs-from-float-exponent", f"coulomb_gaussian_{kind} with alpha={alpha!r} differs from "
+                              f"alpha={af!r}: {n1} vs {n0}", case)
+            ok = np.isfinite(want) and want > 0
+            if ok and not np.allclose(u1, n1 * want, rtol=1e-6 if isinstance(alpha, np.float32) else 1e-12, atol=0, equal_nan=False):
+                ctx.violation(f"exponent-forms:{kind}:unnormalised-factor", f"coulomb_gaussian_{kind}(alpha={alpha!r}, normalized=False) is not the "
+                              f"normalised value times {want!r}: {u1} vs {n1 * want}", case)
+
+
 def refill_histories(ctx):
     from grid.coulomb import coulomb_gaussian_p, coulomb_gaussian_s, coulomb_potential
 
@@ -348,6 +384,7 @@ def run(ctx):
     ctx.guarded("multi_centre", multi_centre, ctx)
     ctx.guarded("loader", loader, ctx)
     ctx.guarded("refill", refill_histories, ctx)
+    ctx.guarded("exponent-forms", exponent_forms, ctx)
     ctx.cov["alphas"] = [ALPHAS[0], ALPHAS[-1], len(ALPHAS)]
     ctx.cov["radii"] = [repr(r) for r in RS]
     ctx.exhaustive = True
@@ -360,5 +397,7 @@ def replay(ctx, case):
         multi_centre(ctx)
     elif case["route"] == "refill":
         refill_histories(ctx)
+    elif case["route"] == "exponent-forms":
+        exponent_forms(ctx)
     else:
         loader(ctx)
